@@ -39,23 +39,11 @@ def class_F9(rules):
     return False
 
 
-def class_F10(rules):
-    """a head formula that mentions &final or >> (its clauses refer to __final(k) of an earlier, released step)"""
-    return any(fml_has(f, ('final', 'finally')) for f in head_formulas(rules))
-
-
-def class_F14(rules):
-    """a head formula over >= 2 distinct atoms in a rule of the final part or with &final in its body: the auxiliary atom of the
-    rule then depends on the external __final(t), and clasp's equivalence preprocessing loses a stable model of the
-    disjunctive domain rule + clause rules (reproduced with the raw backend, clingo 5.8.2; correct with --eq=0)"""
-    for r in rules:
-        if r['head'][0] == 'tel' and len(fml_atoms(r['head'][1], set())) >= 2:
-            if r['part'] == 'final' or any(l[1][0] == 'kw' and l[1][1] == 'final' for l in r['body']):
-                return True
-    return False
-
-
-CLASSES = {'F9': class_F9, 'F10': class_F10, 'F14': class_F14}
+# F10 and F14 (clasp 5.8.2 equivalence preprocessing duplicates / loses a stable model) are no classes any more: every
+# implementation run of the correspondences switches that preprocessing off (worker.do_solve), so head formulas with &final / >>
+# and head formulas in the final part are generated and compared like all others; the two findings are identified by their
+# specific inputs (corpus/C04/F10_*.json, F14*.json), which are replayed under clasp's DEFAULT configuration.
+CLASSES = {'F9': class_F9}
 
 
 def open_findings(prop=None):
